@@ -24,6 +24,7 @@ import (
 	"math/rand"
 	"net"
 	"os"
+	"path/filepath"
 	"sort"
 	"strconv"
 	"strings"
@@ -1074,7 +1075,6 @@ func runScenario(sc *Scenario) {
 	}()
 	allDone := make(chan struct{})
 	go func() { wg.Wait(); close(allDone) }()
-	stopTicks := func() {}
 	if nLong > 0 {
 		// calls without a (short) deadline: once the last fault is over the server is healthy and answers
 		// everything it holds, so every such call must complete (answered, or failed by the stream error) within
@@ -1094,42 +1094,6 @@ func runScenario(sc *Scenario) {
 		}
 		longDone := make(chan struct{})
 		go func() { wgLong.Wait(); close(longDone) }()
-		failpoint.Disable("tikvclient/mockBatchClientSendDelay") // no more held batches while draining
-		if sc.Limit > 0 && os.Getenv("VERIF_C18_NOTICKS") == "" {
-			// with a finite concurrency limit the entries left in the builder are only looked at again when another
-			// request arrives: keep some background traffic going while the long calls drain
-			tickStop := make(chan struct{})
-			var tickWg sync.WaitGroup
-			tickWg.Add(1)
-			go func() {
-				defer tickWg.Done()
-				for k := 0; k < 400; k++ {
-					select {
-					case <-tickStop:
-						return
-					case <-time.After(10 * time.Millisecond):
-					}
-					c := len(sc.Callers) + k
-					// high priority: popped in the round it arrives in without using the quota, so it never competes with
-					// the queued normal requests (the priority queue is not FIFO among equal priorities)
-					cs := CallerSpec{Kind: 0, Pri: 16, TimeoutMs: 2000, CancelUs: -1}
-					ctx := context.WithValue(context.Background(), client.VerifCallerKey{}, int64(c))
-					evs(int64(sc.ID), "SUB\t%d\t0\t16\trawget\t2000\tsync\t0", c)
-					tickWg.Add(1)
-					go func() {
-						defer tickWg.Done()
-						resp, err := rpc.SendRequest(ctx, srvs[0].addr, mkReq(c, cs), 2*time.Second)
-						if err != nil {
-							evs(int64(sc.ID), "RET\t%d\t%s\t-1\t0\t0\t%s", c, errClass(err), firstN(strings.ReplaceAll(err.Error(), "\t", " "), 80))
-						} else {
-							p, _ := respPay(resp)
-							evs(int64(sc.ID), "RET\t%d\tok\t%d\t0\t0\t-", c, p)
-						}
-					}()
-				}
-			}()
-			stopTicks = func() { close(tickStop); tickWg.Wait() }
-		}
 		const drainWindow = 4 * time.Second
 		select {
 		case <-longDone:
@@ -1148,7 +1112,6 @@ func runScenario(sc *Scenario) {
 			}
 		}
 	}
-	stopTicks()
 	limit := time.Duration(25*maxTo)*time.Millisecond + 5*time.Second
 	select {
 	case <-allDone:
@@ -1423,6 +1386,17 @@ func genScenario(r *rand.Rand, id int, class string) *Scenario {
 				sc.Callers = append(sc.Callers, cs)
 			}
 		}
+	case "limitstarve": // regression class for fix 7ad2a8a: a finite limit, one wave built at once, NO further traffic: the
+		// requests left in the builder must be sent as soon as capacity is released (retry timer), not only when another
+		// request happens to arrive
+		sc.NHosts = 1
+		sc.Limit = int64(1 + r.Intn(3))
+		sc.DelayUs, sc.Reorder = 200, 0
+		sc.Faults = append(sc.Faults, Fault{AtUs: 0, Kind: "senddelay", N: 10 + r.Intn(8)})
+		sc.Callers = append(sc.Callers, CallerSpec{Kind: 0, TimeoutMs: normalTo, CancelUs: -1, StartUs: 0})
+		for i := 0; i < int(sc.Limit)+1+r.Intn(4); i++ {
+			sc.Callers = append(sc.Callers, CallerSpec{Pri: []int{0, 0, 5}[r.Intn(3)], Kind: r.Intn(4), TimeoutMs: normalTo, CancelUs: -1, StartUs: 3000 + r.Int63n(1500), SlowMs: []int{0, 20}[r.Intn(2)], Long: true, Async: r.Intn(2) == 0})
+		}
 	case "builder": // the builder: mixed priorities (high ones bypass the limit), a small concurrency limit so that entries
 		// stay in the priority queue across rounds, callers that give up while still queued, forwarding buckets
 		sc.NHosts = 1 + r.Intn(3)
@@ -1593,7 +1567,7 @@ func main() {
 	tier := os.Getenv("VERIF_TIER")
 	r := rand.New(rand.NewSource(seed*7919 + 17))
 	classes := []string{"plain", "forward", "streamfail", "cancel", "close", "staleepoch", "multiconn", "rebreak", "sendpanic", "staleasync",
-		"builder", "recvpanic", "failpanic", "twopools", "nonbatch", "asyncclose", "limitbatch"}
+		"builder", "recvpanic", "failpanic", "twopools", "nonbatch", "asyncclose", "limitbatch", "limitstarve"}
 	rounds := 8
 	if tier == "thorough" {
 		rounds = 100
@@ -1603,6 +1577,27 @@ func main() {
 	}
 	only := os.Getenv("VERIF_CLASS")
 	id := 0
+	// directed regression scenarios (JSON specs kept in the repository of the checks, /verif/corpus/C18/*.json)
+	if dir := os.Getenv("VERIF_C18_CORPUS"); dir != "" && (only == "" || only == "corpus") {
+		files, _ := filepath.Glob(filepath.Join(dir, "*.json"))
+		sort.Strings(files)
+		for _, f := range files {
+			b, err := os.ReadFile(f)
+			if err != nil {
+				continue
+			}
+			var sc Scenario
+			if json.Unmarshal(b, &sc) != nil {
+				continue
+			}
+			for rep := 0; rep < 2; rep++ {
+				id++
+				s2 := sc
+				s2.ID, s2.Class = id, "corpus"
+				runScenario(&s2)
+			}
+		}
+	}
 	for i := 0; i < rounds; i++ {
 		for _, cl := range classes {
 			if only != "" && only != cl {
